@@ -705,8 +705,8 @@ def rule_codec_agreement(ctx, g, rid):
                 problems.append("written with data type %s, read with %s" % (h["dtype"], dt.get(c.get("dtype"))))
             hl = h["len"]
             if hl and hl[0] == "const":
-                if c.get("len") != hl[1]:
-                    problems.append("written with length %d, accepted only with length %s" % (hl[1], c.get("len", "any")))
+                if "len" in c and c.get("len") != hl[1]:
+                    problems.append("written with length %d, accepted only with length %s" % (hl[1], c.get("len")))
             else:
                 if "len" in c:
                     problems.append("written with a variable length, accepted only with length %s" % c["len"])
